@@ -493,6 +493,12 @@ def check_in_flight(ctx, R, cls):
                     continue
                 for f in inplace:
                     others = released_in_place.get(f, set()) - {name}
+                    if len(mdf) == 1:
+                        # identity of a finding survives a renaming of the field: it is the class's only metadata slot
+                        if not hasattr(R, 'roles'):
+                            R.roles = {}
+                        R.roles[('REL-WHILE-IN-FLIGHT', con, f)] = 'only-metadata-slot'
+                        R.roles[('EMITTED-STILL-HELD', con, f)] = 'only-metadata-slot'
                     R.ob('REL-WHILE-IN-FLIGHT', con, f, not others,
                          'emits self.%s in place and suspends on the emission while %s releases that field\'s content'
                          % (f, ', '.join(sorted(others))), ctx.where(fn, e.line), fmt_path(evs) if others else None, 1)
